@@ -64,8 +64,7 @@ theorem flagged_calls {s : Simp} (hs : SimpSound s) {o : Oracle} (ho : OracleSou
       (∀ r, ce.e.out ≠ .stuck r) ∧ ce.e.tag = .normal) :
     ∃ ce ∈ (runC s o cfg env codes this fuel).ends, Sat I ce.e.st.path ∧ ce.e.tag = .normal ∧
       (∃ h0, ce.e.out = .halt h0 ∧ haltWith h0 (ce.e.data.map (·.eval I)) = h) ∧
-      WRelM I (Modelled codes this) (wd w ce.created ce.nonce) w' (stoOf ce.stores) (evalLogs I ce.logs)
-        (balSem I w ce.bal) := by
+      WRelM I (Modelled codes this) w w' (stoOf ce.stores) (evalLogs I ce.logs) (balSem I w ce.bal) := by
   rcases C02.complete_calls hs ho cfg env codes this fuel p w hmem hdep hcodes hcb hz hnc I hI hbal hbound hsha hshaok f0 hR0 hthis hd0
       n w' h hex
     with ⟨ce, hm, hsat, hc⟩ | hb' | hd' | hf'
@@ -78,18 +77,19 @@ theorem flagged_calls {s : Simp} (hs : SimpSound s) {o : Oracle} (ho : OracleSou
   · rw [hd] at hd'; cases hd'
   · rw [hf] at hf'; cases hf'
 
-/-- **C10.flagged_calls_create_partial.** The same with CREATE followed; PARTIAL exactly as
-    `C01.sound_calls_create_partial` / `C02.complete_calls_create_partial` (balances layer off). -/
-theorem flagged_calls_create_partial {s : Simp} (hs : SimpSound s) {o : Oracle} (ho : OracleSound o) (cfg : Cfg) (env : Env)
+/-- **C10.flagged_calls_create.** The same with CREATE followed (see `C01.sound_calls_create` /
+    `C02.complete_calls_create`). -/
+theorem flagged_calls_create {s : Simp} (hs : SimpSound s) {o : Oracle} (ho : OracleSound o) (cfg : Cfg) (env : Env)
     (codes : List (Nat × List Nat)) (this : Nat) (fuel : Nat) (p : Evm.Params) (w : Evm.World)
     (hmem : cfg.maxMem + 32 ≤ p.memLimit) (hdep : 1024 ≤ p.maxDepth)
     (hcodes : ∀ a, w.codeOf a = codeOf codes a)
     (hcb : ∀ a prog, codeOf codes a = some prog → ∀ b ∈ prog, b < 256)
     (hz : ∀ a, ModelledC cfg codes this a → C01.ZeroStorage w a)
-    (hcr : cfg.create = true) (hcv : cfg.balances = false)
+    (hcr : cfg.create = true)
     (hal : ∀ n, p.newAddress (w.created + n) = (cfg.allocBase + n) % 2 ^ 160)
     (hbw : ∀ a, w.balanceOf a < 2 ^ 256)
-    (I : Interp) (hI : I.Std) (hsha : cfg.sha3 = true → ShaInterp I p cfg)
+    (I : Interp) (hI : I.Std) (hbal : cfg.balances = true → BalHyp I cfg w)
+    (hbound : cfg.balances = true → BalBound w) (hsha : cfg.sha3 = true → ShaInterp I p cfg)
     (hshaok : ∀ cs, VisitedC s o cfg codes (initC env codes this) cs → ShaOK I s cfg cs) (f0 : Evm.Frame)
     (hR0 : R I env ((codeOf codes this).getD []) p initState f0) (hthis : f0.this = this) (hd0 : f0.depth = 0)
     (n : Nat) (w' : Evm.World) (h : Evm.Halt) (hex : Evm.exec p n w f0 = some (w', h))
@@ -102,7 +102,7 @@ theorem flagged_calls_create_partial {s : Simp} (hs : SimpSound s) {o : Oracle} 
       (∃ h0, ce.e.out = .halt h0 ∧ haltWith h0 (ce.e.data.map (·.eval I)) = h) ∧
       WRelM I (ModelledC cfg codes this) (wd w ce.created ce.nonce) w' (stoOf ce.stores) (evalLogs I ce.logs)
         (balSem I w ce.bal) := by
-  rcases C02.complete_calls_create_partial hs ho cfg env codes this fuel p w hmem hdep hcodes hcb hz hcr hcv hal hbw I hI hsha hshaok f0 hR0 hthis hd0
+  rcases C02.complete_calls_create hs ho cfg env codes this fuel p w hmem hdep hcodes hcb hz hcr hal hbw I hI hbal hbound hsha hshaok f0 hR0 hthis hd0
       n w' h hex
     with ⟨ce, hm, hsat, hc⟩ | hb' | hd' | hf'
   · obtain ⟨hns, htag⟩ := herr ce hm hsat
